@@ -138,7 +138,10 @@ fn pipeline_replay(a: &Args) {
     let (mut n, mut drift, mut panics) = (0usize, 0usize, 0usize);
     let mut samples: Vec<Value> = vec![];
     let mut dsamples: Vec<Value> = vec![];
-    for v in &reps {
+    let mut nreps = 0usize;
+    for v in reps {
+        nreps += 1;
+        let v = &v;
         let text = text_of(&v["text"]);
         n += 1;
         if let Some(w) = pool.as_mut() {
